@@ -17,6 +17,7 @@ visibility of writes, the race detector) is decided by the schedule corresponden
 -/
 import Klev.Gen.Facts
 import Klev.Proofs.ConcProofs
+import Klev.Proofs.ConcRefines
 namespace Klev.C08
 open Klev.Conc
 
@@ -74,6 +75,22 @@ theorem writer_exclusive (v0 : Vis) (ths : List Th) (h : Fresh ths) (sched : Lis
     (hwi : holdsW ti.phase = true) (hwj : holdsW tj.phase = true) : i = j :=
   Klev.Conc.writer_exclusive v0 ths h sched i j ti tj hi hj hwi hwj
 
+/-- The sequential specification the lock discipline is linearizable against *is* the content semantics
+of the modelled operations: `Log.publish` on a read-write log is one `seqStep` on `abs l` … -/
+theorem publish_refines (l : Log) (hinv : Klev.Inv l) (hrw : l.opts.readonly = false) (b : Conc.Batch) :
+    (l.publish b).2 = .ok ((abs l).next + b.length) ∧
+    Conc.seqStep (Conc.toVis (abs l)) (.publish b) [] =
+      (Conc.toVis (abs (l.publish b).1), .next ((abs l).next + b.length)) :=
+  Klev.Conc.publish_refines l hinv hrw b
+
+/-- … and `Log.delete` reporting `del` is one `seqStep` with the legal choice `del`. -/
+theorem delete_refines (l : Log) (hinv : Klev.Inv l) (hrw : l.opts.readonly = false) (offs : List Int)
+    (del : List Msg) (size : Int) (h : (l.delete offs).2 = .ok (del, size)) :
+    Conc.LegalChoice (Conc.toVis (abs l)) (.delete offs) del ∧
+    Conc.seqStep (Conc.toVis (abs l)) (.delete offs) del =
+      (Conc.toVis (abs (l.delete offs).1), .deleted del) :=
+  Klev.Conc.delete_refines l hinv hrw offs del size h
+
 end Klev.C08
 
 /-! ### Non-vacuity
@@ -110,3 +127,5 @@ end NonVacuity
 #print axioms Klev.C08.publish_entry_range
 #print axioms Klev.C08.no_unreported_loss
 #print axioms Klev.C08.writer_exclusive
+#print axioms Klev.C08.publish_refines
+#print axioms Klev.C08.delete_refines
